@@ -113,6 +113,14 @@ def worker(args):
                 seen[o["name"]] = seen.get(o["name"], 0) + 1
                 out["refutations"].append({"bound": con.bounded, "obligation": o["name"], "kind": o["kind"], "label": o["label"],
                                            "path": o["path"], "model": o["model"], "replay": rp.replay(key, o["model"], o)})
+            elif o["status"] == "unknown" and o["model"] and str(o.get("detail", "")).startswith("candidate model") and seen.get(o["name"], 0) < 4:
+                # the solver could not decide the bounded VC but left a candidate: it counts only if the real code fails on it
+                seen[o["name"]] = seen.get(o["name"], 0) + 1
+                r_ = rp.replay(key, o["model"], o)
+                if r_.get("reproduced"):
+                    o["status"] = "failed"
+                    out["refutations"].append({"bound": con.bounded, "obligation": o["name"], "kind": o["kind"], "label": o["label"],
+                                               "path": o["path"], "model": o["model"], "replay": r_})
     elif (bad and res.error is None) or (res.error and "needs an invariant" in res.error):
         # (a loop that has no invariant -- typically one a change has just added -- stops the proof; the bounded search, which
         # unrolls loops, can still find a replayable failure of one of the function's clauses)
@@ -189,6 +197,73 @@ def _unlisted_self_stores(key, con):
     return out
 
 
+def _task_entry(conn, task):
+    try:
+        conn.send(worker(task))
+    except BaseException as e:  # noqa: B902 -- the parent must always get an answer
+        import traceback as _tb
+        conn.send({"__crash__": f"{type(e).__name__}: {e}\n{_tb.format_exc(limit=6)}"})
+    finally:
+        conn.close()
+
+
+def run_tasks(tasks, jobs):
+    """One process per function under contract, at most `jobs` at a time, each under a HARD wall-clock limit: z3 does not
+    always honour its timeout or an interrupt (seen: minutes inside one check()), and a native replay runs real code.  A task
+    that overruns is killed and its function reported as undecided -- a check can be slow, it must never hang."""
+    ctx = mp.get_context("fork")
+    pending = list(enumerate(tasks))
+    running = {}
+    results = [None] * len(tasks)
+    while pending or running:
+        while pending and len(running) < jobs:
+            i, task = pending.pop(0)
+            parent, child = ctx.Pipe(duplex=False)
+            p = ctx.Process(target=_task_entry, args=(child, task), daemon=True)
+            p.start()
+            child.close()
+            con = REG.contracts[task[0]]
+            budget = (con.budget_s or task[1].get("fuc_budget_s", 240))
+            hard = budget * 2.5 + 2 * task[1].get("refute_budget_s", 120) + 120
+            running[i] = (p, parent, time.time(), hard, task)
+        done = []
+        for i, (p, parent, t_start, hard, task) in running.items():
+            if parent.poll(0.05):
+                try:
+                    results[i] = parent.recv()
+                except EOFError:
+                    results[i] = {"__crash__": "worker ended without an answer"}
+                p.join(5)
+                done.append(i)
+            elif not p.is_alive():
+                results[i] = {"__crash__": f"worker died (exit code {p.exitcode})"}
+                done.append(i)
+            elif time.time() - t_start > hard:
+                p.kill()
+                p.join(5)
+                results[i] = {"__timeout__": hard}
+                done.append(i)
+        for i in done:
+            task = running.pop(i)[4]
+            r = results[i]
+            if "__crash__" in r or "__timeout__" in r:
+                key = task[0]
+                con = REG.contracts[key]
+                qual = key.split("::", 1)[1]
+                base = {"key": key, "file": key.split("::")[0], "qualname": qual, "sha256": "", "lines": [0, 0], "paths": 0, "log": [],
+                        "refutations": [], "secs": 0.0, "bounded": con.bounded}
+                if "__timeout__" in r:
+                    base["error"] = None
+                    base["obligations"] = [{"name": f"{qual}.budget.hard_time_limit", "kind": "budget", "label": "hard_time_limit", "line": 0, "path": "-",
+                                            "status": "unknown", "backend": "-", "secs": 0.0, "model": None, "smt_head": None,
+                                            "detail": f"worker killed after {int(r['__timeout__'])} s (a solver call did not honour its timeout)"}]
+                else:
+                    base["error"] = "engine crash: " + r["__crash__"]
+                    base["obligations"] = []
+                results[i] = base
+    return results
+
+
 def main(argv=None):
     ap = argparse.ArgumentParser()
     ap.add_argument("prop")
@@ -221,7 +296,7 @@ def main(argv=None):
         for parts in pool.map(split_tasks_star, [(k, cfg) for k in big], chunksize=1):
             tasks += parts
         tasks += [(k, cfg) for k in keys if not REG.contracts[k].split]
-        raw = pool.map(worker, tasks, chunksize=1)
+    raw = run_tasks(tasks, max(1, a.jobs))
     by_key: Dict[str, list] = {}
     for r_ in raw:
         by_key.setdefault(r_["key"], []).append(r_)
